@@ -216,9 +216,8 @@ class Lib:
         if s.t is None:
             return
         if isinstance(o, VSet):
-            f = z3.Lambda([z3.Const('k', s.kty.sort())], z3.BoolVal(True))
-            # s - o  ==  map(and, s, not o)
-            ns = z3.Map(ufun_and(), s.t, z3.Map(ufun_not(), o.t))
+            kk = z3.Const('k', s.kty.sort())
+            ns = z3.Lambda([kk], z3.And(z3.Select(s.t, kk), z3.Not(z3.Select(o.t, kk))))
             it.set_content(cell, VSet(ns, s.kty))
             return
         raise Unsupported('set -= %r' % (o,))
@@ -516,20 +515,25 @@ class Lib:
                     return VCell(cb, 'set')
                 if cb.t is None:
                     return VCell(ca, 'set')
-                return VCell(VSet(z3.Map(ufun_or(), ca.t, cb.t), ca.kty), 'set')
+                kk = z3.Const('k', ca.kty.sort())
+                return VCell(VSet(z3.Lambda([kk], z3.Or(z3.Select(ca.t, kk), z3.Select(cb.t, kk))), ca.kty), 'set')
         if isinstance(op, ast.Mod) and isinstance(a, VStr):
             return VStr(it.ctx.fresh_const('fmt', S))
         if isinstance(a, VOpaque) or isinstance(b, VOpaque):
-            # unknown operands: result unknown (e.g. `ret &= handler_result`)
-            if isinstance(op, ast.BitAnd) and isinstance(a, VBool):
-                # bool & x: Python gives x.__rand__... only sound if x is bool-like; model as opaque
-                f = ufun('py_bitand', U, U, U)
-                return VOpaque(f(box(a), box(b)))
+            # operands of statically unknown type: fork on the readings
+            if isinstance(a, VOpaque) and not getattr(a, 'note', '') == 'other':
+                return self.binop(it, op, it.ctx.force(unbox(a.t), 'unbox'), b, node)
+            if isinstance(b, VOpaque) and not getattr(b, 'note', '') == 'other':
+                return self.binop(it, op, a, it.ctx.force(unbox(b.t), 'unbox'), node)
             f = ufun('py_binop_' + type(op).__name__, U, U, U)
             return VOpaque(f(box(a), box(b)))
         raise Unsupported('binary %s on %r, %r' % (type(op).__name__, a, b), node)
 
     def order(self, it, op, a, b, node):
+        if isinstance(a, VOpaque) and getattr(a, 'note', '') != 'other':
+            a = it.ctx.force(unbox(a.t), 'unbox')
+        if isinstance(b, VOpaque) and getattr(b, 'note', '') != 'other':
+            b = it.ctx.force(unbox(b.t), 'unbox')
         num = (VInt, VBool, VFloat)
         if isinstance(a, num) and isinstance(b, num):
             if isinstance(a, VFloat) or isinstance(b, VFloat):
@@ -694,6 +698,8 @@ class Lib:
                 k = c.kty.encode(idx)
             except EncodeError:
                 it.raise_('KeyError', line=getattr(node, 'lineno', None))
+            for hook in getattr(c, 'on_key', ()):
+                hook(it, k)
             o = self._map_opt(c)
             cell = simp(z3.Select(c.t, k))
             if it.ctx.branch(o.is_none(cell), 'keyerror'):
@@ -899,8 +905,9 @@ class Lib:
 
     # ------------------------------------------------------------------
     def _setup(self):
-        from . import libmodels
+        from . import libmodels, fsmodel
         libmodels.install(self)
+        fsmodel.install(self)
 
 
 class _AnyT:
